@@ -75,7 +75,7 @@ func (m *Matrix) C05RepCases(thorough bool) []Case {
 	var out []Case
 	for i := range m.Workloads {
 		e := &m.Workloads[i]
-		if e.Synthetic {
+		if e.Synthetic || e.EmuOnly {
 			continue
 		}
 		if !thorough && !c05Quick[e.Name] {
